@@ -25,15 +25,15 @@ use crate::{
     rng::{h64, Rng},
 };
 
-struct NodeX {
-    actor: LiveActor,
-    id: PublicKey,
-    sync: SyncHandle,
+pub(crate) struct NodeX {
+    pub(crate) actor: LiveActor,
+    pub(crate) id: PublicKey,
+    pub(crate) sync: SyncHandle,
     _tx: mpsc::Sender<ToLiveActor>,
-    _ep: Endpoint,
+    pub(crate) _ep: Endpoint,
 }
 
-async fn make_node(seed: u8) -> anyhow::Result<NodeX> {
+pub(crate) async fn make_node(seed: u8) -> anyhow::Result<NodeX> {
     let sk = SecretKey::from_bytes(&[seed; 32]);
     let ep = Endpoint::builder(presets::Minimal).secret_key(sk).relay_mode(RelayMode::Disabled).bind().await?;
     let gossip = Gossip::builder().spawn(ep.clone());
@@ -565,8 +565,18 @@ async fn history(ctx: &mut Ctx, _case: u64, rng: &mut Rng, w: &mut World, ns_sec
             AbortEnd(usize),
             ConnectEnd(usize),
             AcceptEnd(usize),
+            StartSyncAgain(usize),
         }
         let mut evs: Vec<(Ev, u32)> = vec![];
+        // sharing a document, or joining more peers, calls start_sync on a document that is being
+        // synced already: whatever is in flight, the slots stay as they are
+        if events < max_events && (w.in_flight() > 0 || rng.chance(1, 4)) {
+            for x in 0..n {
+                if w.syncing[x] {
+                    evs.push((Ev::StartSyncAgain(x), 1));
+                }
+            }
+        }
         if dial_budget > 0 && events < max_events {
             for x in 0..n {
                 for y in 0..n {
@@ -685,6 +695,40 @@ async fn history(ctx: &mut Ctx, _case: u64, rng: &mut Rng, w: &mut World, ns_sec
                 };
                 w.kinds.push(if res.is_ok() { "connect-end-ok" } else { "connect-end-err" });
                 w.connect_finished(x, y, reason, res, "session end").await?;
+            }
+            Ev::StartSyncAgain(x) => {
+                let before: Vec<Option<String>> = (0..n).map(|y| if y == x { None } else { w.running(x, y) }).collect();
+                let (tx, rx) = oneshot::channel();
+                let _ = w.nodes[x].actor.verif_on_actor_message(ToLiveActor::StartSync { namespace: ns, peers: vec![], reply: tx }).await;
+                let ok = matches!(rx.await, Ok(Ok(())));
+                w.kinds.push("start-sync-again");
+                ctx.count("start_sync_on_a_document_already_syncing", 1);
+                let dials = w.nodes[x].actor.verif_take_dials();
+                w.trace.push(format!("{}: n{x} start_sync again (document already syncing) -> {}{}", w.step, if ok { "ok" } else { "error" }, if dials.is_empty() { String::new() } else { format!(", {} dial(s) to stored peers", dials.len()) }));
+                if !ok {
+                    return Err(("start-sync-of-a-syncing-document-failed".into(), json!({"node": x, "trace": w.trace})));
+                }
+                let mut dialled = vec![false; n];
+                for (dns, peer, reason) in dials {
+                    let Some(y) = (0..n).find(|y| w.nodes[*y].id == peer) else {
+                        return Err(("dial-to-unexpected-peer-or-document".into(), json!({"trace": w.trace})));
+                    };
+                    if dns != ns || y == x {
+                        return Err(("dial-to-unexpected-peer-or-document".into(), json!({"trace": w.trace})));
+                    }
+                    if before[y].is_some() || dialled[y] {
+                        return Err(("dial-decided-while-slot-busy".into(), json!({"node": x, "busy": before[y], "trace": w.trace})));
+                    }
+                    dialled[y] = true;
+                    let id = w.next_id;
+                    w.next_id += 1;
+                    w.reqs.push(Req { id, from: x, to: y, reason, born: w.step });
+                }
+                for y in 0..n {
+                    if y != x && !dialled[y] && w.running(x, y) != before[y] {
+                        return Err(("start-sync-of-a-syncing-document-changed-a-slot".into(), json!({"node": x, "peer": y, "before": before[y], "after": w.running(x, y), "trace": w.trace})));
+                    }
+                }
             }
             Ev::AcceptEnd(i) => {
                 let (x, y) = (w.sessions[i].dialer, w.sessions[i].acceptor);
